@@ -41,6 +41,8 @@ def oracle(case, res):
     for k, evs in enumerate(per_op):
         n = 0
         for e in evs:
+            if e[0] == 'note' and len(e) > 1 and e[1] == 'rxover':
+                return 'unbounded-parse:op %d: one ParseMessages call took %s frames from the driver (bound 20)' % (k, e[2] if len(e) > 2 else '?')
             if e[0] == 'dlv':
                 n += 1
                 if e[5] > MAX_DATA or e[5] < 0 or len(e[6]) > MAX_DATA:
